@@ -33,7 +33,8 @@ FLOORS = {'round_trips': 150, 'point_uncompiled': 10, 'point_compiled': 10,
           'plain_files': 20, 'evaluations_compared': 500,
           'reused_loader': 20, 'frozen_formula_models': 10,
           'overwritten_files': 50, 'loaded_twice': 20,
-          'names_compared_after_evaluation': 50}
+          'names_compared_after_evaluation': 50,
+          'fresh_process_loads': 8}
 ANCHOR_FUNCS = {'xlcalculator/model.py': ['Model.persist_to_json_file',
                                           'Model.construct_from_json_file',
                                           'Model.build_code']}
@@ -100,6 +101,7 @@ def run(ctx):
     os.makedirs(out, exist_ok=True)
     n_models = (2500 if thorough else 96) // ctx.nshards
     loader = None
+    kept_for_fresh = []
     for mi in range(n_models):
         sheets = ('Sheet1',) if rng.random() < 0.6 else ('Sheet1', 'Q1 2020')
         use_xlsx = rng.random() < 0.5
@@ -289,6 +291,17 @@ def run(ctx):
                         ('value', nan_safe(gr[1]))
                 if go != gr:
                     bad.append((a, go, gr))
+            if not bad and len(kept_for_fresh) < (6 if thorough else 2) and \
+                    point in ('evaluated', 'overwritten', 'reevaluated'):
+                # the same file read by ANOTHER process that has done nothing
+                # else (see the end of run)
+                import shutil
+                keep = os.path.join(out, f'fresh{ctx.shard}_'
+                                    f'{len(kept_for_fresh)}{ext}')
+                shutil.copyfile(fname, keep)
+                kept_for_fresh.append((keep, point, build.dict_of(wb), {
+                    a: subject.outcome_of(lambda: ev_o.evaluate(a))
+                    for a in sorted(model.cells)}))
             if bad:
                 ctx.fail(f'after restore (point {point!r}) cells evaluate '
                          f'differently: {bad[:3]}',
@@ -318,6 +331,75 @@ def run(ctx):
                 ctx.sample({'cells': build.dict_of(wb), 'point': point,
                             'ext': ext, 'gzip': is_gzip,
                             'cells_compared': len(before['cells'])})
+    # ---- a process that has done nothing but start: it constructs the model
+    # from the file and evaluates every cell; the outcomes are those of the
+    # original model in this process ------------------------------------------
+    if kept_for_fresh:
+        import json
+        import subprocess
+        import sys
+        script = (
+            'import json, sys\n'
+            'from vlib import bootstrap, subject\n'
+            'bootstrap.import_subject()\n'
+            'from xlcalculator import Model, Evaluator\n'
+            'out = []\n'
+            'for path in sys.argv[1:]:\n'
+            '    try:\n'
+            '        m = Model()\n'
+            '        m.construct_from_json_file(path, build_code=True)\n'
+            '        ev = Evaluator(m)\n'
+            '        out.append({a: subject.outcome_of(lambda: ev.evaluate(a))'
+            ' for a in sorted(m.cells)})\n'
+            '    except BaseException as e:\n'
+            '        out.append({"<load>": ["raised", repr(e)[:300]]})\n'
+            'print("FRESH" + json.dumps(out))\n')
+        try:
+            r = subprocess.run(
+                [sys.executable, '-B', '-c', script]
+                + [k[0] for k in kept_for_fresh],
+                env=bootstrap.child_env(ctx.seed), capture_output=True,
+                text=True, timeout=300)
+            line = [ln for ln in r.stdout.splitlines()
+                    if ln.startswith('FRESH')]
+            fresh = json.loads(line[-1][5:]) if line else None
+        except Exception as e:  # noqa
+            fresh = None
+            r = None
+        if fresh is None:
+            ctx.inconclusive_because(
+                'the fresh-process loader produced no result: '
+                + (r.stderr[-300:] if r is not None else 'not started'))
+        else:
+            def canon(o):
+                return json.loads(json.dumps(o))
+            for (keep, point, wbd, expect), got in zip(kept_for_fresh, fresh):
+                ctx.event('fresh_process_loads')
+                ctx.case(('fresh-process', point, os.path.splitext(keep)[1]))
+                bad = []
+                for a, go in expect.items():
+                    gf = got.get(a, got.get('<load>'))
+                    ctx.event('evaluations_compared')
+                    if go[0] == 'value':
+                        go = ('value', nan_safe(go[1]))
+                    if gf and gf[0] == 'value' and gf[1][0] == 'num' and \
+                            gf[1][1] != gf[1][1]:
+                        gf = ['value', ['num', 'nan']]
+                    if canon(go) != gf:
+                        bad.append((a, go, gf))
+                if bad:
+                    ctx.fail(f'model persisted at point {point!r}, '
+                             f'constructed and evaluated by a process that '
+                             f'did nothing else: (cell, original, fresh '
+                             f'process) = {bad[:3]}',
+                             {'cells': wbd, 'point': point,
+                              'differences': bad[:10]},
+                             monitor='same-evaluation', group='fresh-process')
+        for k in kept_for_fresh:
+            try:
+                os.remove(k[0])
+            except OSError:
+                pass
     # ---- a long formula (hundreds of operands, below Excel's 8192 characters) ----
     if ctx.shard in (0, 1) or thorough:
         for n_terms in (60, 120, 250, 400):
